@@ -113,6 +113,15 @@ def run(ctx: core.Ctx):
             pass
         for (st, su, fn, val) in hist:
             total_msgs += 1
+            if init and rng.random() < 0.03:
+                # an object is initialised again in the middle of the history (with or without an answer to the sync query): only what the
+                # device reports changes what attributes read
+                k = rng.randrange(len(S.objs))
+                answered = rng.random() < 0.7
+                S.initialize(k, version_reply="1.23" if answered else None)
+                if answered:
+                    last[("SYS", "VERSION")] = "1.23"
+                ctx.count("reinitialize:" + ("answered" if answered else "unanswered"))
             ctx.case((st, su, fn, val))
             ctx.count("status:" + st)
             sent0 = len(S.conn.sent)
